@@ -114,6 +114,42 @@ pub fn run_scenario(
             before: &before,
             after: &after,
         };
+        // the step log is a record made inside the implementation: tie it to what the call returned.
+        // Per machine the returned action is that of the state of the last Scheduled step that no
+        // Withdrawn step followed, and there is none if there is no such step.
+        let mut last_sched: Vec<Option<usize>> = vec![None; n];
+        for st in fw.verif_log() {
+            match st {
+                Step::Scheduled { machine, state } if *machine < n => last_sched[*machine] = Some(*state),
+                Step::Withdrawn { machine } if *machine < n => last_sched[*machine] = None,
+                _ => {}
+            }
+        }
+        let mut tie: Result<(), String> = Ok(());
+        for m in 0..n {
+            let got: Vec<&Act> = acts.iter().filter(|a| a.machine == m).collect();
+            match last_sched[m] {
+                None if !got.is_empty() => tie = Err(format!("machine {m}: {:?} returned although the steps of the call left nothing scheduled for it", got)),
+                Some(st) => match (sc.machines[m].states.get(st).and_then(|s| s.action.as_ref()), got.as_slice()) {
+                    (Some(def), [a]) => {
+                        if let Err(e) = crate::refsem::check_action(def, a) {
+                            tie = Err(format!("machine {m}: the last action scheduled in the call is that of state {st}, {e}"));
+                        }
+                    }
+                    (Some(_), other) => tie = Err(format!("machine {m}: the action of state {st} was scheduled last and not withdrawn, the call returned {other:?}")),
+                    (None, _) => tie = Err(format!("machine {m}: Scheduled step for state {st}, which defines no action")),
+                },
+                _ => {}
+            }
+            if tie.is_err() {
+                break;
+            }
+        }
+        if let Err(m) = tie {
+            let msg = format!("call #{i} (t={}, events [{}]): {m}", now.0, fmt_events(&events));
+            return Err(("returned-actions-differ-from-the-steps-taken".into(), msg, trace));
+        }
+        out.bump("calls_with_returned_actions_tied_to_the_step_log");
         if let Err((s, m)) = mon.call(&rec, out) {
             let mut msg = format!("call #{i} (t={}, events [{}]): {m}", now.0, fmt_events(&events));
             if out.verbose {
